@@ -320,7 +320,15 @@ func (client *client) writeLoop() {
 			for {
 				select {
 				case packet := <-client.out:
-					if _, ok := packet.(*packets.Disconnect); ok {
+					final := false
+					switch p := packet.(type) {
+					case *packets.Disconnect:
+						final = true
+					case *packets.Connack:
+						// the refusal of a CONNECT is queued the same way right before client.close is closed
+						final = p.Code != codes.Success
+					}
+					if final {
 						if err = client.writePacket(packet); err == nil {
 							srv.statsManager.packetSent(packet, client.opts.ClientID)
 						}
